@@ -241,12 +241,19 @@ class MerkleCache(object):
         if index >= length:
             raise ValueError('index must be less than length')
         await self.initialized.wait()
-        await self._extend_to(length)
-        leaf_start = self._leaf_start(index)
-        count = min(self._segment_length(), length - leaf_start)
-        leaf_hashes = await self.source_func(leaf_start, count)
-        if length < self._segment_length():
-            return self.merkle.branch_and_root(leaf_hashes, index, tsc_format=tsc_format)
-        level = await self._level_for(length)
-        return self.merkle.branch_and_root_from_level(
-            level, leaf_hashes, index, self.depth_higher, tsc_format=tsc_format)
+        while True:
+            truncations = self.truncations
+            await self._extend_to(length)
+            leaf_start = self._leaf_start(index)
+            count = min(self._segment_length(), length - leaf_start)
+            leaf_hashes = await self.source_func(leaf_start, count)
+            if length < self._segment_length():
+                result = self.merkle.branch_and_root(leaf_hashes, index, tsc_format=tsc_format)
+            else:
+                level = await self._level_for(length)
+                result = self.merkle.branch_and_root_from_level(
+                    level, leaf_hashes, index, self.depth_higher, tsc_format=tsc_format)
+            # A truncation (chain reorganisation) whilst waiting for hashes means the parts
+            # may come from different chains and that the cache no longer reaches length
+            if truncations == self.truncations:
+                return result
